@@ -458,6 +458,36 @@ pub fn c03_change_zero_quantities<S: Src>(_s: &mut S) {
     assert!(failures.is_empty(), "{} change outputs hold a zero-quantity asset or an empty policy bundle; first: {}", failures.len(), failures[0]);
 }
 
+// ---------------------------------------------------------------- C01: every Plutus data variant the library writes decodes as that variant
+pub fn c01_plutus_variants<S: Src>(_s: &mut S) {
+    let mut failures: Vec<String> = Vec::new();
+    let ints = ["0", "23", "24", "18446744073709551615", "18446744073709551616", "340282366920938463463374607431768211456", "-1", "-24", "-25", "-18446744073709551616", "-18446744073709551617", "-340282366920938463463374607431768211457"];
+    let mut samples: Vec<(String, PlutusData)> = Vec::new();
+    for i in ints { samples.push((format!("integer {}", i), PlutusData::new_integer(&BigInt::from_str(i).unwrap()))); }
+    samples.push(("bytes (short)".into(), PlutusData::new_bytes(vec![1, 2, 3])));
+    samples.push(("bytes (100, chunked)".into(), PlutusData::new_bytes(vec![7; 100])));
+    samples.push(("empty list".into(), PlutusData::new_list(&PlutusList::new())));
+    let big = PlutusData::new_integer(&BigInt::from_str("18446744073709551616").unwrap());
+    let mut l = PlutusList::new(); l.add(&big); l.add(&PlutusData::new_bytes(vec![9]));
+    samples.push(("list with a big integer".into(), PlutusData::new_list(&l)));
+    let mut m = PlutusMap::new(); let mut vals = PlutusMapValues::new(); vals.add(&big); m.insert(&PlutusData::new_bytes(vec![1]), &vals);
+    samples.push(("map with a big integer value".into(), PlutusData::new_map(&m)));
+    for alt in [0u64, 6, 7, 127, 128, 200] { samples.push((format!("constructor {}", alt), PlutusData::new_constr_plutus_data(&ConstrPlutusData::new(&bn(alt), &l)))); }
+    for (what, d) in &samples {
+        let b = d.to_bytes();
+        match PlutusData::from_bytes(b.clone()) {
+            Ok(back) => {
+                if back.kind() != d.kind() { failures.push(format!("{}: decoded as another kind", what)); }
+                if back.to_bytes() != b { failures.push(format!("{}: re-encoding differs", what)); }
+                if back != *d { failures.push(format!("{}: decoded value differs", what)); }
+            }
+            Err(_) => failures.push(format!("{}: the library's own encoding {:02x?} does not decode", what, &b[..b.len().min(24)])),
+        }
+        if PlutusData::from_hex(&d.to_hex()).map(|x| x.to_bytes()).ok() != Some(b) { failures.push(format!("{}: hex entry points disagree with the byte entry points", what)); }
+    }
+    assert!(failures.is_empty(), "{} Plutus data samples do not survive encode / decode; first: {}", failures.len(), failures[0]);
+}
+
 // ---------------------------------------------------------------- C09 first clause: auxiliary-data hash
 fn blake2b256_ref(data: &[u8]) -> [u8; 32] {
     use cryptoxide::hashing::blake2b::Blake2b;
